@@ -42,6 +42,7 @@ type vfTask struct {
 	term   func() bool
 	saw    *atomic.Int32 // tasks that have observed cancellation
 	wrapc  bool          // "fail" returns an error wrapping context.Canceled
+	rdy    sync.Once
 }
 
 func (t *vfTask) Ready() <-chan struct{} { return t.readyC }
@@ -66,7 +67,7 @@ func (t *vfTask) Run(ctx context.Context) error {
 				// logged before the effect: the announcement can only follow the close, so a "nready" line can never
 				// overtake the "tready" line of a task that really was ready first
 				t.emit(map[string]any{"ev": "tready", "i": t.i})
-				close(t.readyC)
+				t.rdy.Do(func() { close(t.readyC) })
 			case "fail":
 				t.emit(map[string]any{"ev": "tfail", "i": t.i})
 				t.emit(map[string]any{"ev": "texit", "i": t.i})
@@ -96,7 +97,12 @@ func TestVF_Server(t *testing.T) {
 	for n, sc := range vfReadLines(in) {
 		switch vfStr(sc, "kind", "serve") {
 		case "serve":
-			vfServeScenario(rec, sc, filepath.Join(dir, fmt.Sprintf("n%d.sock", n)))
+			if vfBool(sc, "bubble", false) {
+				// virtual time, no notify socket: for everything that depends on how long a task takes to stop
+				synctest.Test(t, func(t *testing.T) { vfServeScenario(rec, sc, "") })
+			} else {
+				vfServeScenario(rec, sc, filepath.Join(dir, fmt.Sprintf("n%d.sock", n)))
+			}
 		case "build":
 			vfBuildScenario(rec, sc)
 		case "retry":
@@ -116,8 +122,17 @@ func vfServeScenario(rec *vfRec, sc map[string]any, sockPath string) {
 	// Quiescence is decided from the scheduler's own view, not from elapsed time: every other goroutine is parked
 	// (channel, select, mutex, WaitGroup, network poller), the notify socket is empty, and no event was recorded
 	// between two such observations. A loaded machine only makes this slower, never wrong.
+	bubble := sockPath == ""
 	var drain func() int
 	settle := func() {
+		if bubble {
+			synctest.Wait()
+			emit(map[string]any{"ev": "quiet"})
+			cnt.mu.Lock()
+			cnt.n--
+			cnt.mu.Unlock()
+			return
+		}
 		stable := 0
 		last := -1
 		for i := 0; i < 20000 && stable < 2; i++ {
@@ -147,39 +162,46 @@ func vfServeScenario(rec *vfRec, sc map[string]any, sockPath string) {
 	behs := vfList(sc, "beh")
 	emit(map[string]any{"ev": "reset", "id": vfStr(sc, "id", ""), "n": len(behs)})
 
-	pc, err := net.ListenUnixgram("unixgram", &net.UnixAddr{Name: sockPath, Net: "unixgram"})
-	if err != nil {
-		panic(fmt.Sprintf("vf: %v", err))
+	var notifier *sdnotify.Notifier
+	if bubble {
+		emit(map[string]any{"ev": "nonotify"})
 	}
-	defer pc.Close()
-	rawc, err := pc.SyscallConn()
-	if err != nil {
-		panic(fmt.Sprintf("vf: %v", err))
-	}
-	dbuf := make([]byte, 4096)
-	drain = func() int { // the datagrams the server has written so far (Notify is a synchronous write)
-		got := 0
-		for {
-			n, rerr := 0, error(nil)
-			if cerr := rawc.Read(func(fd uintptr) bool {
-				n, _, rerr = syscall.Recvfrom(int(fd), dbuf, syscall.MSG_DONTWAIT)
-				return true
-			}); cerr != nil || rerr != nil || n <= 0 {
-				return got
-			}
-			got++
-			for _, line := range strings.Split(string(dbuf[:n]), "\n") {
-				if line == "READY=1" {
-					emit(map[string]any{"ev": "nready"})
+	if !bubble {
+		pc, err := net.ListenUnixgram("unixgram", &net.UnixAddr{Name: sockPath, Net: "unixgram"})
+		if err != nil {
+			panic(fmt.Sprintf("vf: %v", err))
+		}
+		defer pc.Close()
+		rawc, err := pc.SyscallConn()
+		if err != nil {
+			panic(fmt.Sprintf("vf: %v", err))
+		}
+		dbuf := make([]byte, 4096)
+		drain = func() int { // the datagrams the server has written so far (Notify is a synchronous write)
+			got := 0
+			for {
+				n, rerr := 0, error(nil)
+				if cerr := rawc.Read(func(fd uintptr) bool {
+					n, _, rerr = syscall.Recvfrom(int(fd), dbuf, syscall.MSG_DONTWAIT)
+					return true
+				}); cerr != nil || rerr != nil || n <= 0 {
+					return got
+				}
+				got++
+				for _, line := range strings.Split(string(dbuf[:n]), "\n") {
+					if line == "READY=1" {
+						emit(map[string]any{"ev": "nready"})
+					}
 				}
 			}
 		}
+		nn, err := sdnotify.Open(sockPath)
+		if err != nil {
+			panic(fmt.Sprintf("vf: %v", err))
+		}
+		defer nn.Close()
+		notifier = nn
 	}
-	notifier, err := sdnotify.Open(sockPath)
-	if err != nil {
-		panic(fmt.Sprintf("vf: %v", err))
-	}
-	defer notifier.Close()
 
 	srv := NewServer(NewContext(nil, nil, nil))
 	var saw atomic.Int32
@@ -220,6 +242,10 @@ func vfServeScenario(rec *vfRec, sc map[string]any, sockPath string) {
 		// that mutex, so a task that observes cancellation before the driver lets go has provably been cancelled
 		// before the terminate / reload decision was recorded. "tgate false" is written before the mutex is
 		// released, so in a correct run every "tsaw" line comes after it.
+		if bubble { // (a goroutine waiting for a mutex is not durably blocked: no gate under virtual time)
+			sigC <- s
+			return
+		}
 		srv.t.mu.Lock()
 		emit(map[string]any{"ev": "tgate", "held": true})
 		before := saw.Load()
@@ -245,6 +271,8 @@ func vfServeScenario(rec *vfRec, sc map[string]any, sockPath string) {
 			if !signalled {
 				sendSig(vfStr(op, "sig", "term"))
 			}
+		case "sleep": // virtual time passes (bubble scenarios only)
+			time.Sleep(time.Duration(vfInt(op, "ms", 0)) * time.Millisecond)
 		case "release":
 			i := vfInt(op, "i", 1)
 			emit(map[string]any{"ev": "release", "i": i})
@@ -276,6 +304,13 @@ func vfServeScenario(rec *vfRec, sc map[string]any, sockPath string) {
 		}
 	}
 	settle()
+	if bubble {
+		// Serve's readiness waiters of tasks that never became ready would outlive the bubble: let them go
+		for _, st := range stubs {
+			st.rdy.Do(func() { close(st.readyC) })
+		}
+		synctest.Wait()
+	}
 }
 
 func vfBuildScenario(rec *vfRec, sc map[string]any) {
